@@ -492,17 +492,20 @@ _NOTE = ("Trusted: Coq kernel, extraction (ExtrOcamlBasic), ocaml/Pop_driver.ml,
          "finalization and save/load are outside this model.")
 _TECH = "Coq proof (induction over op histories, invariants) + extraction-based differential correspondence + direct oracles"
 META_C02 = {
-    "text": "Theorems (Coq, closed under the global context; all trees, payload assignments, failing positions, histories): "
-            "CommandGroup::execute is atomic and unExecute is its exact inverse; applyBlock is atomic (a failing k-th group "
-            "of any block leaves P, the applied counter and the tip untouched and changes only FAILED_POP/FAILED_CHILD "
-            "marks); applyBlock followed by unapplyBlock restores P exactly; after setState / comparePopScore with ANY "
-            "outcome P is exactly (as a multiset) the bootstrap state plus the effects of the blocks flagged applied; "
-            "setState true => target is tip, fully valid, counter = chain length; false => tip unchanged, counter = chain "
-            "length, target invalid. _partial (C02_setState_atomic_partial, C02_compare_atomic_partial): not proved that the "
-            "blocks flagged applied are exactly root..tip after the call and that no assert (Abort) is reachable; the full "
-            "statements are kept in coq/Properties_C02.v. Those parts are covered by the direct oracle on the implementation "
-            "(full ALT/VBK/BTC snapshot before/after every call, with the allowance of DESIGN section 7) under exhaustive "
-            "enumeration of the failing group position, and by the step-by-step correspondence with the extracted model.",
+    "text": "Theorems (Coq, closed under the global context; all trees, payload assignments, failing positions (n,k)): "
+            "CommandGroup::execute is atomic and unExecute its exact inverse; applyBlock is atomic (a failing k-th group of "
+            "any block leaves P, the applied counter and the tip untouched and changes only FAILED_POP/FAILED_CHILD marks); "
+            "applyBlock followed by unapplyBlock restores P exactly. C02_setState_atomic (full on the applied set): from "
+            "every state reachable by connectBlock/setState histories, setState true => target is tip and EXACTLY root..target "
+            "is flagged applied (counting argument over the as-coded applied-block counter), false => tip, counter and the "
+            "applied flag of every block are exactly what they were and P is unchanged as a multiset "
+            "(C02_setState_failure_unchanged). After setState / comparePopScore with ANY outcome from any reachable state P is "
+            "exactly the bootstrap state plus the effects of the blocks flagged applied. _partial "
+            "(C02_setState_atomic_partial, C02_compare_atomic_partial; full statements in coq/Properties_C02.v): not proved that "
+            "validity marks change only on the target branch during the walk, that no assert (Abort) is reachable, and that "
+            "after comparePopScore the applied flags are root..tip. Those parts are covered by the direct oracle on the "
+            "implementation (full ALT/VBK/BTC snapshot before/after every call with the allowance of DESIGN section 7, under "
+            "enumeration of the failing group position) and by the step-by-step correspondence with the extracted model.",
     "note": _NOTE, "technique": _TECH,
 }
 META_C01 = {
@@ -510,11 +513,13 @@ META_C01 = {
             "C01_applied_canonical: in EVERY state reachable by any history of connectBlock / setState / comparePopScore "
             "(any scorer) over any tree with any payloads, P = bootstrap state + exactly the effects of the blocks flagged "
             "applied (reference counts and endorsement multiset) - nothing of an abandoned or rolled-back fork is left; "
-            "C01_history_independence_partial: two histories whose applied blocks carry the same payloads end with the same "
-            "reference counts and endorsements (the fresh instance shown only the final chain is one of them). _partial: "
-            "'applied blocks = root..tip between calls' is not proved (kept in coq/Properties_C01.v); verdict and payout "
-            "equality are checked on the implementation by the twin oracle (history vs fresh instance: POP projection of "
-            "the ALT/VBK/BTC views, payouts, comparePopScore against shown candidates), not proved.",
+            "C01_history_independence: two histories of connectBlock/setState calls (any forks activated and abandoned, failing "
+            "switches, back and forth) ending with the same active chain (same payloads on root..tip) give the same reference "
+            "count for every SP block and the same endorsements - the fresh instance shown only the final chain is one of "
+            "them. _partial (C01_history_independence_partial): for histories that also contain comparePopScore the statement "
+            "is proved relative to the set of blocks flagged applied, not yet relative to the active chain. Verdict and payout "
+            "equality are checked on the implementation by the twin oracle (history vs fresh instance: POP projection of the "
+            "ALT/VBK/BTC views, payouts, comparePopScore against shown candidates), not proved (scoring is property C03).",
     "note": _NOTE, "technique": _TECH,
 }
 META_C20 = {
